@@ -185,6 +185,27 @@ def max_window_excess(events, L, burst):
     return best
 
 
+def max_window_excess_linear(events, L, burst):
+    """the same maximum in one pass: bytes(i..j) - L*(t_j - t_i) = (pre[j+1] - L*t_j) - (pre[i] - L*t_i), so for every j the
+    best start is the minimum of pre[i] - L*t_i over i <= j (events at one instant are all inside the window: the earliest
+    of them has the smallest pre[i], the latest the largest pre[j+1])."""
+    ev = sorted(events)
+    if not ev:
+        return None
+    best = None
+    pre = Fr(0)
+    lo, lo_t = None, None
+    for t, b in ev:
+        key = pre - L * t
+        if lo is None or key < lo:
+            lo, lo_t = key, t
+        pre += b
+        ex = pre - L * t - lo - burst
+        if best is None or ex > best[0]:
+            best = (ex, lo_t, t - lo_t, ex + burst + L * (t - lo_t))
+    return best
+
+
 def check_bound(sc, calls, consts, rep, kind_override=None):
     PL, TH = consts
     L = Fr(sc['L'])
@@ -484,7 +505,9 @@ RULE = ('scenarios = (limit L, direction, per-thread lists of (caller gap, size,
         '(sizes <= d_max with d_max = L/4, the commands\' chunk size max(L//(16n),1), or random), adversarial all-d_max '
         'bursts, 2-5 streams with zero latency in an rng-chosen legal lock order, the slow-overlapping-I/O probe; plus '
         'transparency cases = random read/write/seek/tell/truncate sequences on BytesIO through the wrapper, bare or under '
-        'TQDMIOReader/TQDMIOWriter.  non-trivial = at least one sleep was requested (timing) / a rate-limited op slept '
+        'TQDMIOReader/TQDMIOWriter; plus command-level cases = the real upload_objects / download_objects / snapshot / restore with a rate '
+        'limit over many files/objects around and below the transfer chunk size against a recording backend under the virtual '
+        'clock (non-trivial = at least 20 transfers).  non-trivial = at least one sleep was requested (timing) / a rate-limited op slept '
         '(transparency); distinct = distinct scenario contents')
 
 
@@ -664,6 +687,171 @@ def real_threads_probe(rep):
 
 
 
+# --------------------------------------------------------------------------- command-level probe
+class RecordingBackend:
+    """In-memory backend with coroutine methods (so every transfer runs on the event loop, one at a time, and the single
+    virtual clock is only touched by that thread).  It notes (virtual time, bytes) for every piece it reads from the
+    stream it is given to upload and for every piece it writes into the stream it is given to download into - the payload
+    the COMMAND lets through, whatever wrappers the command did or did not put around the stream."""
+
+    def __init__(self, sim):
+        self.sim = sim
+        self.objects = {}
+        self.events = []          # (virtual time, bytes, direction)
+        self.chunk_sizes = set()
+
+    async def exists(self, name):
+        return name in self.objects
+
+    async def upload(self, name, data):
+        self.objects[name] = bytes(data)
+
+    async def upload_stream(self, name, stream, length, chunk_size=128_000):
+        self.chunk_sizes.add(chunk_size)
+        parts = []
+        while True:
+            piece = stream.read(chunk_size)
+            if not piece:
+                break
+            self.events.append((self.sim.clock[0], len(piece), 'up'))
+            parts.append(piece)
+        self.objects[name] = b''.join(parts)
+
+    async def download(self, name):
+        return self.objects[name]
+
+    async def download_stream(self, name, stream, chunk_size=128_000):
+        self.chunk_sizes.add(chunk_size)
+        data = self.objects[name]
+        stream.truncate(len(data))
+        for i in range(0, len(data), chunk_size):
+            n = stream.write(data[i:i + chunk_size])
+            self.events.append((self.sim.clock[0], n, 'down'))
+
+    async def list_files(self, prefix=''):
+        for n in sorted(self.objects):
+            if n.startswith(prefix):
+                yield n
+
+    async def delete(self, name):
+        self.objects.pop(name, None)
+
+    async def close(self):
+        pass
+
+
+def gen_command_case(rng, command=None):
+    """a rate-limited command run: limit, concurrency, and the sizes of the files / objects it transfers - many of them
+    no longer than the transfer chunk size the command chooses, some around it, some much longer"""
+    L = rng.choice([2048, 4096, 8000, 8192, 20000, 65536])
+    n = rng.choice([1, 2, 5])
+    chunk = max(L // (n * 16), 1)
+    family = rng.choice(['small', 'small', 'boundary', 'mixed'])
+    # enough payload for about 3 seconds at the limit: the burst allowance is worth 0.5 - 0.65 s
+    target = L * rng.choice([2, 3, 4])
+    sizes = []
+    while sum(sizes) < target and len(sizes) < 900:
+        if family == 'small':
+            sizes.append(rng.randint(1, chunk))
+        elif family == 'boundary':
+            sizes.append(max(1, chunk + rng.choice([-2, -1, 0, 0, 1, 2])))
+        else:
+            sizes.append(rng.choice([rng.randint(1, chunk), rng.randint(1, chunk), chunk, rng.randint(chunk + 1, 6 * chunk)]))
+    return {'probe': 'command', 'command': command or rng.choice(['upload_objects', 'download_objects', 'snapshot', 'restore']),
+            'L': L, 'n': n, 'sizes': sizes, 'family': family, 'seed': rng.randrange(2 ** 32)}
+
+
+def run_command_case(case):
+    """run the real command against the recording backend under the virtual clock; returns (events, chunk sizes, PAUSE_LIMIT)"""
+    import asyncio, random, shutil, tempfile
+    from pathlib import Path
+    from replicat.repository import Repository
+    import replicat.utils as U
+    sim = Sim(1, exact=False)
+    be = RecordingBackend(sim)
+    L, n, sizes, command = case['L'], case['n'], case['sizes'], case['command']
+    r = random.Random(case['seed'])
+    d = Path(tempfile.mkdtemp(prefix='verif-c20cmd-', dir=os.environ.get('VERIF_SCRATCH', '/var/tmp')))
+    cwd = os.getcwd()
+
+    async def go():
+        repo = Repository(be, concurrent=n, quiet=True, cache_directory=None)
+        if command == 'upload_objects':
+            paths = []
+            for i, sz in enumerate(sizes):
+                p = d / 'src' / f'f{i:04d}'
+                p.write_bytes(r.randbytes(sz))
+                paths.append(p)
+            await repo.upload_objects(paths, rate_limit=L)
+        elif command == 'download_objects':
+            for i, sz in enumerate(sizes):
+                be.objects[f'obj/o{i:04d}'] = r.randbytes(sz)
+            await repo.download_objects(path=d / 'out', rate_limit=L)
+        else:
+            # chunk objects of a snapshot: the chunker is asked for pieces around the transfer chunk size, so that many
+            # stored objects are no longer than one transfer chunk
+            chunk = max(L // (n * 16), 1)
+            mx = max(8, min(chunk, 4096) // 4 * 4)
+            await repo.init(settings={'encryption': None, 'chunking': {'min_length': max(1, mx // 2), 'max_length': mx}})
+            for i, sz in enumerate(sizes[:150]):
+                (d / 'src' / f'f{i:04d}').write_bytes(r.randbytes(sz))
+            if sum(sizes[150:]):
+                (d / 'src' / 'rest').write_bytes(r.randbytes(sum(sizes[150:])))
+            await repo.snapshot(paths=[d / 'src'], rate_limit=L if command == 'snapshot' else None)
+            if command == 'restore':
+                be.events.clear()
+                be.chunk_sizes.clear()
+                await repo.restore(path=d / 'out', rate_limit=L)
+    try:
+        (d / 'src').mkdir()
+        os.chdir(d)
+        with contextlib.redirect_stdout(io.StringIO()), contextlib.redirect_stderr(io.StringIO()), patched_time(sim):
+            asyncio.run(go())
+            pl = Fr(U.RateLimitedIO.PAUSE_LIMIT)
+    finally:
+        os.chdir(cwd)
+        shutil.rmtree(d, ignore_errors=True)
+    want = 'up' if command in ('upload_objects', 'snapshot') else 'down'
+    return [(t, b) for t, b, k in be.events if k == want], set(be.chunk_sizes), pl
+
+
+def check_command_case(case, rep):
+    """window oracle on the payload a rate-limited command hands to / takes from the backend"""
+    events, chunks, PL = run_command_case(case)
+    L, n = Fr(case['L']), case['n']
+    rep.case(('command', case['command'], case['L'], n, case['sizes']), nontrivial=len(events) >= 20)
+    rep.count('command:' + case['command'])
+    rep.count('command transfers', len(events))
+    if not events:
+        rep.disagreements.append({'what': f'command probe: {case["command"]} transferred nothing through the backend streams', 'replay': case})
+        return False
+    # the property's fixed burst allowance: L*PAUSE_LIMIT + (n+1)*d_max with d_max the transfer chunk size, at most L/4
+    dmax = min(Fr(max(chunks)) if chunks else L / 4, L / 4)
+    burst = L * PL + (n + 1) * dmax
+    best = max_window_excess_linear(events, L, burst)
+    tol = (L * best[2] + burst) / 10 ** 6       # float clock
+    if best[0] > tol:
+        ex, t, T, by = best
+        small = sum(1 for s_ in case['sizes'] if s_ <= max(case['L'] // (n * 16), 1))
+        rep.violations.append({
+            'what': (f'{case["command"]} with rate limit {case["L"]} B/s, {n} connection(s), {len(case["sizes"])} files/objects '
+                     f'({small} of them no longer than the transfer chunk of {max(case["L"] // (n * 16), 1)} bytes): the backend saw {by} payload bytes '
+                     f'within {float(T):.6g} s of (virtual) time starting at {float(t):.6g} s; allowed L*T + L*PAUSE_LIMIT + (n+1)*d_max = {float(L * T + burst):.6g}'),
+            'signature': {'kind': 'command_window', 'command': case['command']},
+            'replay': case})
+        return True
+    return False
+
+
+def command_probe(rep, rng, rounds):
+    for command in ('upload_objects', 'download_objects', 'snapshot', 'restore'):
+        for _ in range(rounds):
+            case = gen_command_case(rng, command)
+            check_command_case(case, rep)
+            if command == 'upload_objects':
+                rep.sample({k: (v if k != 'sizes' else v[:12] + ['...']) for k, v in case.items()})
+
+
 def sc_public(sc):
     return {k: v for k, v in sc.items() if not k.startswith('_')}
 
@@ -681,6 +869,7 @@ def run(ctx) -> Report:
     exercise(scs, rep, rng)
     site_probe(rep, rng)
     real_threads_probe(rep)
+    command_probe(rep, rng, ctx.scale(2, 12))
     for i in range(ctx.scale(1500, 20000)):
         check_transparency(transparency_case(rng, i), rep)
     return rep
@@ -702,6 +891,7 @@ def search(ctx, broken) -> Report:
     exercise(scs, rep, rng, with_model=False)
     site_probe(rep, rng)
     real_threads_probe(rep)
+    command_probe(rep, rng, 25)
     for i in range(20000):
         if check_transparency(transparency_case(rng, i), rep) and len(rep.violations) > 5:
             break
@@ -715,6 +905,8 @@ def replay(ctx, obj):
         check_transparency(case['transparency'], rep)
     elif 'calls' in case:
         exercise([dict(case)], rep, ctx.rng)
+    elif case.get('probe') == 'command':
+        check_command_case(case, rep)
     else:
         print('replay file does not carry a C20 case:', obj.get('kind'))
         return 0
